@@ -4,6 +4,14 @@
 cd /verif; . scripts/goenv.sh
 filter=${1:-.}
 wtdir() { case "$1" in *-*) echo "$1";; *) echo "$1-a";; esac; }
+# worktrees that are gone (they live under /tmp and are removed at the end of a session) are recreated from the
+# copies kept in /verif/seeded/<name>/
+grep -E "$filter" scripts/seedlist.txt | while read wt i name props; do
+  d=/tmp/seed/$(wtdir $wt)
+  [ -d $d ] || scripts/mkseedwt.sh $(wtdir $wt) >/dev/null
+  mkdir -p $d/SEED
+  [ -f $d/SEED/change$i.diff ] || { cp seeded/$name/patch.diff $d/SEED/change$i.diff; cp seeded/$name/demo_test.go $d/SEED/change${i}_test.go; cp seeded/$name/notes.md $d/SEED/change$i.md 2>/dev/null; }
+done
 for wt in $(grep -E "$filter" scripts/seedlist.txt | awk '{print $1}' | sort -u); do
   d=/tmp/seed/$(wtdir $wt)
   [ -d $d/SEED ] || { echo "no SEED in $d"; continue; }
